@@ -8,6 +8,7 @@ import DesyncModel.Tables.Wake
 import DesyncModel.Inv.RunReach
 import DesyncModel.Inv.ErasedReach
 import DesyncModel.Inv.CvReach
+import DesyncModel.FactHandBack
 
 namespace Desync.C04
 open Desync Gen
@@ -75,5 +76,9 @@ theorem caller_waits_under_its_lock {s : State} (hr : Reachable s) {a : Nat} (hp
 
 theorem signaller_holds_the_callers_lock {s : State} (hr : Reachable s) {b w : Nat} (hpc : (s.pcAt b).notifies = some w) : (w, b) ∈ s.readyLock :=
   (cvInv_reachable hr).rl2 b w hpc
+
+/-- the runners' hand-backs are unconditional in the source, as the model's `siIdle` / `sdIdle` / `sbStealIdle` / `dqIdle` steps are
+(regenerated fact): a queue is never left in a "somebody is running it" state because its runner found it changed -/
+theorem runners_hand_back_unconditionally : stateConditionalHandBacks = [] := hand_backs_are_unconditional
 
 end Desync.C04
